@@ -1184,6 +1184,12 @@ func (r *timeRunner) Exec(line string) string {
 		return b01(got)
 	case "expectgone":
 		k := string(unhx(t[1]))
+		// liveness probe with a generous bound: the span elapsed long ago (the history slept well beyond it); the background
+		// sweeper gets another 10 s of scheduling slack before the entry counts as "not removed without being asked"
+		deadline := time.Now().Add(10 * time.Second)
+		for r.c.has(k) && time.Now().Before(deadline) {
+			time.Sleep(50 * time.Millisecond)
+		}
 		if r.c.has(k) {
 			r.add("C18", "self-sweeper", fmt.Sprintf("key %s still present: the self-sweeping cacher did not remove an expired entry", hx([]byte(k))))
 		}
